@@ -84,6 +84,8 @@ def run(R):
         c.check(len(asg) == 1, cm, asg[0] if asg else cm.node, 'connection_made stores the transport that found()/error() later pause', kind='ast', tag='transport-stored')
     with R.clause('D6', 'TIMEOUT', floor=4, desc='awaits wait_for(fut, timeout); TimeoutError -> pause + Expecter.timeout()') as c:
         check_wait(c, ea)
+    with R.clause('D9', 'CONFIG', floor=3, desc='the awaited form searches with the same Expecter configuration as the blocking form (per-call search window)') as c:
+        check_expecter_config(c, repo)
     with R.clause('D7', 'REUSE', floor=5, desc='reuse of the stored protocol/transport pair') as c:
         check_reuse(c, repo, ea)
     if R.thorough:
@@ -269,7 +271,32 @@ def check_reuse(c, repo, f):
             witness='fresh Future on min=%s max=%s paths' % (mn, mx), tag='set_expecter')
 
 
+def check_expecter_config(c, repo):
+    """every Expecter the entry points build -- the one handed to expect_async in particular -- gets this call's searcher and this
+    call's searchwindowsize; a blocking path that delegates to expect_loop() forwards them"""
+    n = 0
+    for q in ('spawnbase:SpawnBase.expect_list', 'spawnbase:SpawnBase.expect_exact', 'spawnbase:SpawnBase.expect_loop'):
+        f = repo.func(q)
+        if 'searchwindowsize' not in f.params:
+            raise AnalysisError('%s has no searchwindowsize parameter' % q)
+        for k in calls_in(f.node):
+            if callee_last(k) == 'Expecter':
+                n += 1
+                w = call_arg(k, 'searchwindowsize', 2)
+                c.check(w is not None and is_name(w, 'searchwindowsize'), f, k,
+                        'the Expecter is given the searchwindowsize of this call (a per-call window applies to the awaited form exactly as to the blocking one)',
+                        witness=norm(k), kind='ast', tag='expecter-window:' + f.name)
+            elif callee_last(k) == 'expect_loop' and isinstance(k.func, ast.Attribute) and is_name(k.func.value, 'self'):
+                n += 1
+                w = call_arg(k, 'searchwindowsize', 2)
+                c.check(w is not None and is_name(w, 'searchwindowsize'), f, k, 'delegation to expect_loop() forwards the per-call search window',
+                        witness=norm(k), kind='ast', tag='loop-window:' + f.name)
+    c.need(n >= 3, 'expected an Expecter construction in each of expect_list / expect_exact / expect_loop, found %d' % n)
+
+
 MUTANTS = [
+    ('async-expecter-default-window', 'spawnbase', "        exp = Expecter(self, searcher_re(pattern_list), searchwindowsize)\n        if async_:\n            from ._async import expect_async\n            return expect_async(exp, timeout)\n        else:\n            return exp.expect_loop(timeout)",
+     "        searcher = searcher_re(pattern_list)\n        if async_:\n            from ._async import expect_async\n            return expect_async(Expecter(self, searcher), timeout)\n        return self.expect_loop(searcher, timeout, searchwindowsize)", 'D9'),
     ('idle-drops-buffer', MOD, "            spawn._before.write(s)\n            spawn._buffer.write(s)\n            return", "            spawn._before.write(s)\n            return", 'D3'),
     ('idle-falls-through', MOD, "            spawn._before.write(s)\n            spawn._buffer.write(s)\n            return", "            spawn._before.write(s)\n            spawn._buffer.write(s)", 'D3'),
     ('found-truthy', MOD, "            if index is not None:\n                # Found a match\n                self.found(index)", "            if index:\n                # Found a match\n                self.found(index)", 'D3'),
